@@ -234,6 +234,9 @@ func (c *Ctx) NViolations() int {
 	return len(c.violations)
 }
 
+// KeepDefaultLogger lets a driver install its own slog default before Main.
+var KeepDefaultLogger bool
+
 // ReplayFile is set when the driver is asked to re-run a stored replay.
 var ReplayFile string
 
@@ -262,7 +265,7 @@ func Main(id, level string, run func(c *Ctx)) {
 		stages:     map[string]any{},
 	}
 	level0 = level
-	if os.Getenv("VERIF_LOG") == "" {
+	if os.Getenv("VERIF_LOG") == "" && !KeepDefaultLogger {
 		slog.SetDefault(slog.New(slog.NewTextHandler(io.Discard, nil)))
 	}
 	c.Work = filepath.Join(VerifRoot, ".work", fmt.Sprintf("%s-%d", id, os.Getpid()))
